@@ -8,7 +8,9 @@ use automerge::{ActorId, AutomergeError, ObjId, ObjType, ReadDoc, ScalarValue};
 use serde_json::{json, Value as J};
 
 pub fn actor_from_num(n: i64) -> ActorId {
-    if n < 256 {
+    if n >= 100_000 {
+        ActorId::from(vec![(n - 100_000) as u8])
+    } else if n < 256 {
         ActorId::from(vec![n as u8])
     } else {
         let level = (n / 256) as u8;
